@@ -1048,7 +1048,7 @@ class Processor:
             try:
                 # Try using the ref as a bare Array index
                 idx = int(str_stripped)
-                if len(data) > idx:
+                if -len(data) <= idx < len(data):
                     self.logger.debug(
                         "Processor::_get_nodes_by_key:  FOUND key node as a"
                         " bare Array index at [{}]."
@@ -1155,14 +1155,20 @@ class Processor:
                         str(unstripped_attrs)
                     ) from wrap_ex
 
-                if intmin == intmax and len(data) > intmin:
+                if intmin == intmax and -len(data) <= intmin < len(data):
                     yield NodeCoords(
-                        [data[intmin]], data, intmin,
+                        [NodeCoords(
+                            data[intmin], data, intmin,
+                            translated_path + "[{}]".format(intmin),
+                            ancestry + [(data, intmin)], pathseg)],
+                        data, intmin,
                         translated_path + "[{}]".format(intmin),
                         ancestry + [(data, intmin)], pathseg)
                 else:
                     sliced_elements = []
-                    for slice_index in range(intmin, intmax):
+                    for slice_index in range(
+                        *slice(intmin, intmax).indices(len(data))
+                    ):
                         sliced_elements.append(NodeCoords(
                             data[slice_index], data, slice_index,
                             translated_path + "[{}]".format(slice_index),
@@ -1174,7 +1180,7 @@ class Processor:
 
             elif isinstance(data, dict):
                 for key, val in data.items():
-                    if min_match <= key <= max_match:
+                    if min_match <= str(key) <= max_match:
                         yield NodeCoords(
                             val, data, key,
                             translated_path + YAMLPath.escape_path_section(
@@ -1183,7 +1189,7 @@ class Processor:
 
             elif isinstance(data, (CommentedSet, set)):
                 for ele in data:
-                    if min_match <= ele <= max_match:
+                    if min_match <= str(ele) <= max_match:
                         yield NodeCoords(
                             ele, data, ele,
                             translated_path + YAMLPath.escape_path_section(
@@ -1200,7 +1206,7 @@ class Processor:
                     str(unstripped_attrs)
                 ) from wrap_ex
 
-            if isinstance(data, list) and len(data) > idx:
+            if isinstance(data, list) and -len(data) <= idx < len(data):
                 yield NodeCoords(
                     data[idx], data, idx, translated_path + "[{}]".format(idx),
                     ancestry + [(data, idx)], pathseg)
@@ -1410,7 +1416,7 @@ class Processor:
             for lstidx, ele in enumerate(data):
                 if search_keys:
                     # pylint: disable=locally-disabled,consider-using-ternary
-                    matches = ((is_aoh and term in ele)
+                    matches = ((is_aoh and ele is not None and term in ele)
                         or Searches.search_matches(method, term, ele))
                 elif isinstance(ele, dict) and attr in ele:
                     matches = Searches.search_matches(method, term, ele[attr])
